@@ -539,6 +539,37 @@ func runBubble(p Plan) (v hk.Verdict) {
 				}
 			}
 
+			// Teardown's answer ("ready to be destroyed") reflects the value it was applied to: the value it committed,
+			// or - when the resource was tearing down already - a value that was current during the call
+			if as.a.K == "teardown" {
+				if len(myCommits) == 1 {
+					if c := commits[myCommits[0]]; as.ready != (len(c.New.Fins) == 0) {
+						v.Failf("%s (teardown via %s) returned ready=%v but the value it committed (#%d) is %s", as.name, as.a.Via, as.ready, myCommits[0], c.New)
+					}
+
+					v.Label("teardown-commit-ready-checked")
+				} else if first >= 0 {
+					cur := replay(initial, commits, first)
+					explained := false
+
+					for i := first; ; i++ {
+						if r := cur[as.key]; r != nil && r.Phase == 1 && as.ready == (len(r.Fins) == 0) {
+							explained = true
+						}
+
+						if i >= last || i >= len(commits) {
+							break
+						}
+
+						applyCommit(cur, commits[i])
+					}
+
+					if !explained {
+						v.Failf("%s (teardown via %s) returned ready=%v without a commit, but no tearing-down value current during the call has that finalizer state", as.name, as.a.Via, as.ready)
+					}
+				}
+			}
+
 			if len(myCommits) == 0 && (as.a.K == "uwc" || as.a.K == "modify") && as.a.Mut < 2 {
 				v.Failf("%s (%s) reported success with a changing mutator but owns no commit", as.name, as.a.K)
 			}
